@@ -42,6 +42,18 @@ fn inputs(tier: &str) -> Vec<Input> {
         c.files.push(("zz-unused2.xsd".into(), crate::schema::print_xsd(&extra.files[0]).replace("Unused", "Unused2")));
         v.push(Input { label: "gen:unreferenced-siblings".into(), case: c });
     }
+    // a sibling whose NAME differs from an imported file's only in letter case (different content)
+    {
+        let mut c = crate::seeds::s0().to_case();
+        let mut other = crate::seeds::s0();
+        for comp in other.files[1].comps.iter_mut() {
+            let n = format!("Upper{}", comp.name());
+            comp.set_name(&n);
+        }
+        c.files.push(("B.xsd".into(), crate::schema::print_xsd(&other.files[1])));
+        c.files.push(("A.XSD".into(), crate::schema::print_xsd(&other.files[1]).replace("Upper", "Shout")));
+        v.push(Input { label: "gen:sibling-names-differ-in-case-only".into(), case: c });
+    }
     // several namespaces whose abbreviations collide, declared on one element
     {
         let mut s = crate::seeds::s0();
